@@ -113,6 +113,8 @@ def validate_chunk_logs(run, items, byid):
         run.traces += idx
         rejected[bad] = (hwm, lines[hwm])
         pending = pending[idx + 1:]
+        if len(rejected) >= 4:
+            break
     return rejected
 
 
